@@ -117,8 +117,8 @@ def trace_bounded_instance():
     from pb_bss.utils import unsqueeze
 
     def make(B):
-        return {'which': B.choose('which', ['cacgmm', 'cacgmm-continued', 'cacgmm', 'cwmm', 'gmm-full', 'gmm-diagonal', 'gmm-spherical', 'gcacgmm']),
-                'wca': B.choose('wca', [(-1,), -2, (-3,), (-3, -1)]), 'sal': B.choose('sal', [False, True]),
+        return {'which': B.choose('which', ['cacgmm', 'cacgmm-continued', 'cwmm', 'gmm-full', 'gmm-diagonal', 'gmm-spherical', 'gcacgmm', 'gcacgmm']),
+                'wca': B.choose('wca', [(-1,), -2, (-3,), (-3, -1)]), 'sal': B.choose('sal', [False, True, True]),
                 'K': B.choose('K', [2, 3]), 'D': B.choose('D', [2, 3, 4]), 'n_it': B.choose('n_it', [3, 8, 20, 50]),
                 'seed': B.choose('seed', list(range(5000))), 'd': B.given('d', np.zeros(1))}
 
@@ -135,6 +135,9 @@ def trace_bounded_instance():
         emb = rng.normal(size=(F, N, 3)) + 2.0 * np.eye(3)[lab % 3]
         init = np.moveaxis(rng.dirichlet(2 * np.ones(K), size=(F, N)), -1, -2).copy() + 1e-3
         init /= init.sum(-2, keepdims=True)
+        if inp['seed'] % 3 == 0 and (which.startswith('gmm') or which == 'cwmm'):
+            # strictly positive but not normalised over the classes (the saliency-weighted weight update renormalises)
+            init = init * rng.uniform(0.5, 2.0, size=(F, 1, N))
         # integer saliency (observation counts), correlated with the clusters
         sal = (1.0 + 3.0 * (lab == 0) * (rng.rand(F, N) < 0.8)) if inp['sal'] else None
         if which == 'gcacgmm':
@@ -222,7 +225,7 @@ def trace_bounded_instance():
                 yield 'own-log_likelihood-equals-mixture-log-likelihood', bool(abs(o - ll[i]) <= 1e-8 * max(1.0, abs(ll[i])))
                 break
 
-    return Instance('C02', DN + '*Trainer.fit', 'bounded-log-likelihood-traces', make, call, ensures, mode='bounded', bounded_n=60, frame=False)
+    return Instance('C02', DN + '*Trainer.fit', 'bounded-log-likelihood-traces', make, call, ensures, mode='bounded', bounded_n=90, frame=False)
 
 
 def instances(tier):
